@@ -7,11 +7,13 @@ import (
 	"bytes"
 	"encoding/hex"
 	"fmt"
+	"math/big"
 	"math/rand"
 	"sort"
 	"strconv"
 
 	crypto "github.com/onflow/crypto"
+	"verifharness/ref"
 )
 
 // ---------- abstract vocabulary (mirrors DKGNode.tla) ----------
@@ -81,6 +83,7 @@ type Result struct {
 	Panics     []string    `json:"panics"`
 	Outcome    string      `json:"outcome"` // digest of the real outcome (for evidence / distinct counting)
 	Steps      int         `json:"steps"`
+	RefKeys    int         `json:"refkeys"` // key sets re-checked with the reference arithmetic
 }
 
 // ---------- processor recording the real callbacks ----------
@@ -878,6 +881,7 @@ func (s *Sim) judgeKeys() {
 			add("PrivateMatchesPublicShare", fmt.Sprintf("participant %d: sk.PublicKey() != pks[%d]", p, p))
 		}
 	}
+	s.judgeKeysByReference(add)
 	// all shares on one polynomial of degree <= t whose value at 0 is the group key:
 	// every (t+1)-subset of honest participants reconstructs a signature valid under the group key
 	if len(s.honest) < s.sc.T+1 {
@@ -928,4 +932,60 @@ func (s *Sim) judgeKeys() {
 		}
 	}
 	rec(0, nil)
+}
+
+// g2Flow: does the library write Fp2 as c0||c1 (finding D5, judged by C05)?  Detected once from the key of scalar 1.
+var g2Flow = func() bool {
+	one, err := crypto.DecodePrivateKey(crypto.BLSBLS12381, append(make([]byte, 31), 1))
+	if err != nil {
+		return true
+	}
+	return string(one.PublicKey().Encode()) != string(ref.G2Gen.Compress(true))
+}()
+
+// judgeKeysByReference re-checks the key-consistency clause of C07 with the independent arithmetic of harness/ref on the
+// bytes the first honest participant returned: the n public key shares (those of Byzantine participants included) lie on one
+// polynomial of degree <= t whose value at 0 is the group key, and every honest private share times the generator is its
+// public share.  (One run in four, selected by the script seed: reference G2 arithmetic is slow.)
+func (s *Sim) judgeKeysByReference(add func(pred, detail string)) {
+	if s.sc.Seed%4 != 0 {
+		return
+	}
+	s.res.RefKeys++
+	e0 := s.ended[s.honest[0]]
+	dec := func(k crypto.PublicKey) (ref.G2, bool) {
+		p, err := ref.G2Decompress(k.Encode(), !g2Flow)
+		return p, err == nil && p.InSubgroup()
+	}
+	gk, ok := dec(e0.pk)
+	if !ok {
+		add("ReferenceKeys", "the group key returned by End() does not decode to an element of G2")
+		return
+	}
+	pts := make([]ref.G2, s.sc.N)
+	for i := range pts {
+		if pts[i], ok = dec(e0.pks[i]); !ok {
+			add("ReferenceKeys", fmt.Sprintf("public key share %d returned by End() does not decode to an element of G2", i))
+			return
+		}
+	}
+	t := s.sc.T
+	xs := make([]int64, t+1)
+	for j := range xs {
+		xs[j] = int64(j + 1)
+	}
+	if !ref.G2OnPolynomial(xs, pts[:t+1], 0, gk) {
+		add("SharesOnOnePolynomial", "reference arithmetic: the public key shares 0..t do not interpolate to the group key at 0")
+	}
+	for i := t + 1; i < s.sc.N; i++ {
+		if !ref.G2OnPolynomial(xs, pts[:t+1], int64(i+1), pts[i]) {
+			add("SharesOnOnePolynomial", fmt.Sprintf("reference arithmetic: public key share %d is not on the degree-%d polynomial through shares 0..%d", i, t, t))
+		}
+	}
+	for _, p := range s.honest {
+		x := new(big.Int).SetBytes(s.ended[p].sk.Encode())
+		if !ref.G2Gen.Mul(x).Equal(pts[p]) {
+			add("PrivateMatchesPublicShare", fmt.Sprintf("reference arithmetic: participant %d: private share times the generator is not public share %d", p, p))
+		}
+	}
 }
